@@ -8,7 +8,7 @@ import framework as fw
 from framework import Result, finish, proof_obligations
 
 PROP = "C14"
-NEEDS = ["model/Ebnf.v", "model/Chars.v", "model/Lexer.v", "gen/G4Data.v", "gen/AtnData.v",
+NEEDS = ["model/Ebnf.v", "model/Chars.v", "model/Lexer.v", "gen/G4Data.v", "gen/AtnData.v", "proofs/LrecP.v", "proofs/GrammarP.v",
          "proofs/EbnfP.v", "proofs/LexerP.v", "proofs/ArtefactsP.v", "extract/Extract.v"]
 
 ALPHABET = list("0123456789") + list("eEjJqpixnaMTFu") + list("+-*/=.,:\"()[]{}|#_ \t\n\r") + ["é", " ", "\U0001F600", "\x00", "\x7f", "'", "$", ";"]
